@@ -150,6 +150,10 @@ func cafsReadSeq(st *memstore.Store, leaf int, key cafs.Key, r *tr.Rng, bufs []i
 	ms := &cafsModeStore{Store: st, eofOnEmpty: r.Intn(2) == 0, eager: r.Intn(3) == 0}
 	if r.Intn(3) == 0 {
 		ms.cap = r.Pick(1, 7, leaf-1, leaf)
+		if ms.cap < leaf/64 {
+			// (the model walks its leaf list once per inner read: keep the number of reads per leaf small)
+			ms.cap = leaf/64 + 1
+		}
 	}
 	b2i := func(b bool) int {
 		if b {
@@ -611,6 +615,11 @@ func c01(c *ctx) error {
 				}
 				if ln > 50000 && bufs[0] < 64 {
 					bufs[0] = 64 + r.Intn(2*leaf)
+				}
+				for j := range bufs {
+					if ln > 50000 && bufs[j] < ln/2000 {
+						bufs[j] = ln/2000 + 1
+					}
 				}
 				if r.Intn(5) == 0 {
 					bufs = []int{r.Pick(1, leaf-1, leaf, leaf+1, 2*leaf)}
